@@ -2,15 +2,18 @@
 (* Trace validation for C16 (and the JS side of C07).  One session = one real       *)
 (* harper_wasm::Linter:                                                             *)
 (*   Reset | Import{words, exported} | Lint{text, len, lints[{s,e,problem,slice,msg}]} *)
-(*   | Ignore{text, key{s,e,msg}} | IgnoredRoundTrip{ok} | Config{ok} | Json{ok}       *)
+(*   | Ignore{text, key{s,e,msg}, ident} | IgnoredRoundTrip{ok} | ExportIgnored         *)
+(*   | ClearIgnored | ImportIgnored{ok} | Config{ok} | Json{ok}                         *)
 (*   | Applied{kind, repl, s, e, before, after} | Clone{probes[{orig[], clone[]}]}     *)
 (* Spec state: the words imported so far (spelling as given), and - between an         *)
 (* Ignore and the next Lint of the same text - what that Lint must return (the         *)
-(* previous result minus the ignored lint).                                            *)
+(* previous result minus the ignored lint), the ignore list in force (ign: the         *)
+(* (text, language, identity) triples ignored and not cleared) and the exported one     *)
+(* (saved): a lint in force must not come back in its own document.                      *)
 EXTENDS SpansOps, OverlapsOps, FiniteSets, Json, IOUtils
 
 Rec == ndJsonDeserialize(IOEnv.TRACE)
-VARIABLES l, added, last, pending
+VARIABLES l, added, last, pending, ign, saved
 
 KeyOf(x) == <<x.s, x.e, x.msg, x.ident>>
 Keys(lints) == [i \in DOMAIN lints |-> KeyOf(lints[i])]
@@ -18,26 +21,34 @@ Keys(lints) == [i \in DOMAIN lints |-> KeyOf(lints[i])]
 Without(ks, id) == SelectSeq(ks, LAMBDA x : x[4] # id)
 LowerEq(a, b) == a = b   \* placeholder: case folding is done by the harness (fields *_lc)
 
-TraceInit == l = 1 /\ added = {} /\ last = [text |-> "", lang |-> "", keys |-> <<>>] /\ pending = <<>>
-Unch == UNCHANGED <<added, last, pending>>
+TraceInit == l = 1 /\ added = {} /\ last = [text |-> "", lang |-> "", keys |-> <<>>] /\ pending = <<>> /\ ign = {} /\ saved = {}
+Unch == UNCHANGED <<added, last, pending, ign, saved>>
 Step(e) ==
-  CASE e.ev = "Reset" -> added' = {} /\ last' = [text |-> "", lang |-> "", keys |-> <<>>] /\ pending' = <<>>
-    [] e.ev = "Import" -> added' = added \cup {e.words[i] : i \in DOMAIN e.words} /\ UNCHANGED <<last, pending>>
+  CASE e.ev = "Reset" -> added' = {} /\ last' = [text |-> "", lang |-> "", keys |-> <<>>] /\ pending' = <<>> /\ ign' = {} /\ saved' = {}
+    [] e.ev = "Import" -> added' = added \cup {e.words[i] : i \in DOMAIN e.words} /\ UNCHANGED <<last, pending, ign, saved>>
     [] e.ev = "Lint" ->
-         /\ last' = [text |-> e.text, lang |-> e.lang, keys |-> Keys(e.lints)] /\ pending' = <<>> /\ UNCHANGED added
+         /\ last' = [text |-> e.text, lang |-> e.lang, keys |-> Keys(e.lints)] /\ pending' = <<>> /\ UNCHANGED <<added, ign, saved>>
          /\ LET spans == [i \in DOMAIN e.lints |-> [id |-> i, s |-> e.lints[i].s, e |-> e.lints[i].e]] IN
             IF \E i \in DOMAIN e.lints : ~SpanOk(e.lints[i].s, e.lints[i].e, e.len) THEN PrintT(<<"REJECT", l, "lint-outside-text">>)
             ELSE IF ~ConflictFree(spans) THEN PrintT(<<"REJECT", l, "lints-overlap">>)
             ELSE IF \E i \in DOMAIN e.lints : e.lints[i].problem # e.lints[i].slice THEN PrintT(<<"REJECT", l, "problem-text-is-not-the-span">>)
             ELSE IF pending # <<>> /\ pending[1] = <<e.text, e.lang>> /\ Keys(e.lints) # pending[2]
                  THEN PrintT(<<"REJECT", l, "ignore-changed-more-or-less-than-that-lint">>)
+            ELSE IF \E i \in DOMAIN e.lints : <<e.text, e.lang, e.lints[i].ident>> \in ign
+                 THEN PrintT(<<"REJECT", l, "ignored-lint-is-reported">>)
             ELSE IF \E i \in DOMAIN e.lints : e.lints[i].kind = "Spelling" /\ e.lints[i].problem \in added
                  THEN PrintT(<<"REJECT", l, "added-word-reported">>)
             ELSE TRUE
     [] e.ev = "Ignore" ->
-         /\ UNCHANGED <<added, last>>
+         /\ UNCHANGED <<added, last, saved>>
+         /\ ign' = ign \cup {<<e.text, e.lang, e.ident>>}
          /\ pending' = IF last.text = e.text /\ last.lang = e.lang
                        THEN <<<<e.text, e.lang>>, Without(last.keys, e.ident)>> ELSE <<>>
+    [] e.ev = "ExportIgnored" -> saved' = ign /\ UNCHANGED <<added, last, pending, ign>>
+    [] e.ev = "ClearIgnored" -> ign' = {} /\ pending' = <<>> /\ UNCHANGED <<added, last, saved>>
+    [] e.ev = "ImportIgnored" ->
+         /\ ign' = ign \cup saved /\ pending' = <<>> /\ UNCHANGED <<added, last, saved>>
+         /\ IF ~e.ok THEN PrintT(<<"REJECT", l, "round-trip-failed-ImportIgnored">>) ELSE TRUE
     [] e.ev \in {"IgnoredRoundTrip", "Config", "Json"} ->
          /\ Unch /\ IF ~e.ok THEN PrintT(<<"REJECT", l, "round-trip-failed-" \o e.ev>>) ELSE TRUE
     [] e.ev = "Applied" ->
